@@ -8,6 +8,11 @@
   C11.4  the reverse strand is the full reversal of the forward bit vector, applied to the query only; both strands go
          through getInitialAlignment with otherwise identical arguments; the strand flag is carried unchanged from the
          correlation to pairing and to the result row
+  C11.6  label positions are ordered by coordinate only (PositionWithSiteId.__lt__ compares .position): site ids descend on
+         the reverse strand while coordinates ascend, so an ordering that looks at the site id first (dataclass order=True)
+         misjudges "before / after" for every '-' segment pair
+  C11.7  each strand's seed is offered iff that strand has peaks, on every path of __getPrimaryCorrelations: no path ends
+         before the other strand was examined, no strand's offer is conditioned on the other strand's result
 Declined: the end-to-end symmetry (needs binning symmetry and identical floating-point peaks on both strands).
 """
 from __future__ import annotations
@@ -20,6 +25,98 @@ from ..terms import C, V
 from ..rules.common import explore, where, short, self_attr, path_terms
 from .c02 import numbering, header_derivation
 from .c14 import expected_distances
+
+
+def position_order(ck, rule):
+    """PositionWithSiteId is ordered by coordinate only"""
+    p = ck.ctx.p
+    cls = p.find_class("PositionWithSiteId")
+    ck.clause(rule, "label positions are ordered by coordinate only (site ids descend on '-', coordinates ascend)")
+    order_flag = False
+    for d in cls.node.decorator_list:
+        if isinstance(d, ast.Call):
+            for k in d.keywords:
+                if k.arg == "order" and isinstance(k.value, ast.Constant) and k.value.value is True:
+                    order_flag = True
+    lt = p.lookup_method(cls, "__lt__", None)
+    w = f"{cls.module.relpath}:{cls.node.lineno}"
+    if lt is None:
+        if order_flag:
+            ck.violation(rule, "PositionWithSiteId:order", w, "positions are compared as (siteId, position) tuples (dataclass "
+                         "order=True): on the reverse strand site ids descend while coordinates ascend, so 'before' and 'after' "
+                         "are exchanged for '-' alignments only", found="@dataclass(order=True), no __lt__",
+                         required="__lt__ comparing .position only")
+            return
+        raise AnalysisError(f"{w}: PositionWithSiteId defines no ordering (neither __lt__ nor order=True)")
+    other = V(lt.call_params()[0].name)
+    for pa in explore(ck, lt):
+        if pa.outcome != "return":
+            continue
+        want = T.mk_lt(self_attr("position"), T.mk_attr(other, "position"))
+        ck.judge(T.as_bool(pa.value) == want, rule, "PositionWithSiteId.__lt__", where(lt, pa.node),
+                 "a < b iff a.position < b.position (the site id takes no part)", found=T.show(pa.value)[:160],
+                 required=T.show(want))
+    for name in ("__gt__", "__le__", "__ge__"):
+        m = p.lookup_method(cls, name, None)
+        if m is not None:
+            for pa in explore(ck, m):
+                if pa.outcome == "return":
+                    ck.judge(not any(x[0] == "attr" and x[2] == "siteId" for x in T.subterms(pa.value)), rule,
+                             f"PositionWithSiteId.{name}", where(m, pa.node), "ordering does not look at the site id",
+                             found=T.show(pa.value)[:160])
+
+
+def strand_decisions(ck, pc, calls):
+    """C11.7: on every path each strand is examined, by conditions on its own correlation only, and the decision function
+    (conditions -> offered or not) is the same for both strands"""
+    ck.clause("C11.7", "each strand's seed is offered by the same rule, from its own correlation only, on every path")
+    if set(calls) != {C(False), C(True)}:
+        return
+    corr = {}
+    for strand, (recv, a, e) in calls.items():
+        corr[strand] = e.term
+    HOLE = V("<strand correlation>")
+    tables = {C(False): {}, C(True): {}}
+    n_paths = 0
+    for pa in explore(ck, pc):
+        if pa.outcome not in ("return", "fall"):
+            continue
+        n_paths += 1
+        offered = {st: any(e.kind == "yield" and e.term == corr[st] for e in pa.events) for st in corr}
+        guards = {st: [] for st in corr}
+        for c, tv, node in pa.state.assumptions:
+            m = [st for st in corr if T.contains(c, corr[st])]
+            if len(m) == 1:
+                guards[m[0]].append((T.substitute(c, {corr[m[0]]: HOLE}), tv))
+            elif len(m) == 2:
+                ck.violation("C11.7", short(pc) + ":mixed-condition", where(pc, node), "a condition looks at both strands' "
+                             "correlations at once: one strand's offer depends on the other strand's result",
+                             found=T.show(c)[:200])
+        for st in corr:
+            name = "reverse" if st == C(True) else "forward"
+            if not guards[st]:
+                ck.violation("C11.7", short(pc) + f":{name}:not-examined", where(pc, pa.node) if pa.node is not None else pc.where,
+                             f"a path ends without the {name} strand's correlation having been examined: whether that strand is "
+                             f"offered as a seed depends on the other strand (" + "; ".join(
+                                 ("" if tv else "not ") + T.show(c)[:90] for c, tv, _ in pa.state.assumptions) + ")",
+                             found=f"{name} offered={offered[st]} with no condition on its own correlation",
+                             required="offered iff its own correlation has peaks")
+                continue
+            key = frozenset(guards[st])
+            prev = tables[st].get(key)
+            if prev is not None and prev != offered[st]:
+                ck.violation("C11.7", short(pc) + f":{name}:ambiguous", pc.where, f"the {name} strand is offered on one path and not "
+                             f"on another under the same conditions on its own correlation", found=str(sorted(T.show(c)[:80] for c, _ in key)))
+            tables[st][key] = offered[st]
+    fw, rv = tables[C(False)], tables[C(True)]
+    if fw and rv:
+        same = fw == rv
+        ck.judge(same, "C11.7", short(pc) + ":same-rule", pc.where,
+                 "forward and reverse seeds are offered by the same decision rule (conditions on the strand's own correlation -> offered)",
+                 found="forward: " + "; ".join(f"{sorted((T.show(c)[:60], tv) for c, tv in k)} -> {v}" for k, v in fw.items())
+                       + " | reverse: " + "; ".join(f"{sorted((T.show(c)[:60], tv) for c, tv in k)} -> {v}" for k, v in rv.items())
+                 if not same else f"{len(fw)} condition set(s), identical for both strands")
+    ck.floor("C11.7 complete paths of __getPrimaryCorrelations", n_paths, 4)
 
 
 def run(ck):
@@ -61,6 +158,7 @@ def run(ck):
     if not found:
         raise AnalysisError(f"{fn.where}: the query distance between the two segments was not found in getScore")
     header_derivation(ck, "C11.3")
+    position_order(ck, "C11.6")
     # ---- C11.4
     gs = p.find_method("OpticalMap", "getSequence")
     for pa in explore(ck, gs):
@@ -118,6 +216,7 @@ def run(ck):
     ck.judge(together, "C11.4", short(pc) + ":independent-strands", pc.where,
              "the two strands are offered independently of each other (there is a path on which both are seeds)",
              found="no path yields both strands" if not together else None)
+    strand_decisions(ck, pc, calls)
     ok = set(calls) == {C(False), C(True)}
     ck.judge(ok, "C11.4", short(pc) + ":both-strands", pc.where, "forward and reverse correlations are both computed and offered as seeds",
              found=str([T.show(k) for k in calls]), required="reverseStrand False and True")
